@@ -11,6 +11,10 @@ try:
 except ImportError:  # pragma: no cover
     OR = None
 try:
+    from . import extra_rules as XR
+except ImportError:  # pragma: no cover
+    XR = None
+try:
     from . import config_rules as CR
 except ImportError:  # pragma: no cover
     CR = None
@@ -43,21 +47,24 @@ RULES = {
     "R23": _get(ER, "r23_engine_state_layering"),
     "R24": _get(ER, "r24_count_protocol"),
     "R25": _get(ER, "r25_accumulate_arms"),
+    "R22": _get(XR, "r22_update_alignment"),
+    "R26": _get(XR, "r26_engine_control"),
+    "R27": _get(XR, "r27_slot_identity"),
 }
 
 # property -> rules (DESIGN.md section 4)
 PROPERTY_RULES = {
-    "C01": ["R9", "R5", "R6", "R24", "R11", "R25", "R23"],
+    "C01": ["R9", "R5", "R6", "R24", "R11", "R25", "R23", "R26"],
     "C02": ["R12", "R13", "R15", "R9"],
     "C03": ["R11", "R21"],
     "C08": ["R1", "R2", "R3", "R4", "R7"],
     "C09": ["R8", "R9", "R10", "R5"],
-    "C10": ["R23", "R20", "R25", "R9", "R11"],
-    "C11": ["R24", "R5", "R6"],
-    "C12": ["R5", "R6", "R7", "R17"],
-    "C13": ["R21"],
+    "C10": ["R23", "R20", "R25", "R9", "R11", "R10", "R26"],
+    "C11": ["R24", "R5", "R6", "R26"],
+    "C12": ["R5", "R27", "R6", "R7", "R17"],
+    "C13": ["R21", "R22"],
     "C16": ["R16", "R3", "R17"],
-    "C17": ["R13", "R14"],
+    "C17": ["R13", "R14", "R26"],
     "C18": ["R20", "R21", "R7"],
     "C19": ["R19"],
 }
@@ -77,7 +84,8 @@ TRUSTED_BASE = [
 EXPLANATION = {
     "C01": "Clause-level static verdict. Decides the composition obligations of the autograd engine for all programs: one gated "
            "adjoint slot per recorded operand (R9), operands recorded as slot-sharing clones (R5,R6), count/decrement/recursion "
-           "guards (R24), contributions merged in the owner's shape (R11) by addition (R25), nobody else touches engine state (R23). "
+           "guards (R24), contributions merged in the owner's shape (R11) by addition (R25), nobody else touches engine state (R23), "
+           "and no engine branch reads adjoint values (R26). "
            "Does NOT decide the numeric value of any gradient.",
     "C02": "Clause-level static verdict over every built-in backward closure: every value-relevant scalar parameter reaches the "
            "derivative (R12), each slot is linear-homogeneous in the incoming adjoint (R13), adjoint scatters accumulate (R15), one "
@@ -94,19 +102,23 @@ EXPLANATION = {
            "(R10); flags are per-handle values copied by Clone (R5). Does NOT decide run-time flag values during a pass.",
     "C10": "Clause-level static verdict: only the engine touches counters/deltas/gradient slots (R23), a pending delta cannot be read "
            "without being emptied (R20d), the gradient slot adds (R25), every counted operand is delivered to (R9), in the owner's "
-           "shape (R11). Does NOT prove the counting invariant over all histories.",
+           "shape (R11); tracking flags are restored after the derivative call (R10) and no engine branch reads adjoint values (R26). "
+           "Does NOT prove the counting invariant over all histories.",
     "C11": "Clause-level static verdict: the derivative closure is invoked at exactly one call site outside any loop; counting, "
-           "decrementing and recursion are guarded by the shared consumer counter (R24); clones share that counter (R5,R6). "
+           "decrementing and recursion are guarded by the shared consumer counter (R24); clones share that counter (R5,R6); no engine "
+           "branch reads adjoint values (R26). "
            "Architecture-bound to the recursive counter engine.",
     "C12": "Clause-level static verdict (the anchored clause): Clone shares or copies every field correctly and every field has a "
-           "decided sharing class (R5); graphs hold clones, never reconstructions (R6); drops are silent (R7); equality ignores "
+           "decided sharing class (R5); no body re-seats a shared slot of a handle (R27); graphs hold clones, never reconstructions (R6); "
+           "drops are silent (R7); equality ignores "
            "per-handle state (R17).",
     "C13": "Clause-level static verdict: the value installed over a parameter is a fresh, graph-free, gradient-free, same-shape, "
-           "tracked array built by the public constructor (R21). Does NOT decide the arithmetic old - lr*g.",
+           "tracked array built by the public constructor (R21); the traversal that fills the frozen-mask / flat buffers and the one that "
+           "consumes them visit the same parameters in a consistent order and select the same subset (R22). Does NOT decide the arithmetic old - lr*g.",
     "C16": "Clause-level static verdict: all refusal clauses via the constructor funnel and its dominating assertions plus no later "
            "write (R16,R3), and equality reads exactly dimensions and values as a conjunction (R17). Does NOT decide index arithmetic.",
     "C17": "Clause-level static verdict: linearity type system over every built-in backward closure and the engine's delta path "
-           "(R13); default seed is ones of the root's shape (R14). Over the reals; user closures out of scope.",
+           "(R13); default seed is ones of the root's shape (R14); no engine branch reads adjoint values (R26). Over the reals; user closures out of scope.",
     "C18": "Clause-level static verdict: ownership-edge inventory (R20), fresh graph-free parameters (R21), no destructors (R7).",
     "C19": "Clause-level static verdict: the f32 build is the f64 build with the float type substituted (body-by-body MIR "
            "comparison with the width erased), no assertion depends on a float, and every other rule gives the same obligations "
